@@ -35,11 +35,21 @@ static void run_map(const std::vector<std::vector<std::string>> &sec, std::ostre
     if (sec.size() > 1) for (auto &t : sec[1]) data.push_back((K) parse_i128(t));
     if (sec.size() > 2) for (auto &t : sec[2]) queries.push_back((K) parse_i128(t));
     std::string fa = g_dir + "/a.bin", fb = g_dir + "/b.bin", fr = g_dir + "/raw.bin";
+    {   // the output files may already exist with older, longer contents: what is written must still be the image alone
+        static size_t ncase = 0; ++ncase;
+        auto stale = [&](const std::string &f) {
+            std::ofstream o(f, std::ios::binary);
+            std::string junk(data.size() * sizeof(K) + 8192 + 37 * (ncase % 5), char(0xAB));
+            o.write(junk.data(), junk.size());
+        };
+        if (ncase % 3 != 1) stale(fa);
+        if (ncase % 3 != 2) stale(fb);
+    }
     try {
         Index a(data.begin(), data.end(), fa);
         out << "BA ok\nFA " << file_hex(fa) << "\n";
         queries_on<Index, K>(a, queries, data, "A", out);
-    } catch (const std::exception &e) { out << "BA throw " << exn_kind(e) << "\n"; }
+    } catch (const std::exception &e) { out << "BA throw " << exn_kind(e) << "\n"; unlink(fa.c_str()); }
     {
         std::ofstream r(fr, std::ios::binary);
         r.write((const char *) data.data(), data.size() * sizeof(K));
@@ -48,7 +58,7 @@ static void run_map(const std::vector<std::vector<std::string>> &sec, std::ostre
         Index b(fr, fb);
         out << "BB ok\nFB " << file_hex(fb) << "\n";
         queries_on<Index, K>(b, queries, data, "B", out);
-    } catch (const std::exception &e) { out << "BB throw " << exn_kind(e) << "\n"; }
+    } catch (const std::exception &e) { out << "BB throw " << exn_kind(e) << "\n"; unlink(fb.c_str()); }
     struct stat st;
     if (stat(fa.c_str(), &st) == 0 && st.st_size > 0) {
         auto before = file_hex(fa);
